@@ -35,7 +35,7 @@ pub fn run_c15_scheme<S: Sch>(tier: Tier, rep: &mut Report) {
     let roots: Vec<hist::Node<S>> = init_list.iter().filter(|i| names.contains(&i.label.as_str())).filter_map(|i| hist::make_init::<S>(i, &mut scratch)).collect();
     let steps = steps_for::<S>(&core_actions::<S>(), &VAR_LENS[..1]);
     let depth = if tier == Tier::Thorough { 2 } else { 1 };
-    let nodes = hist::bfs::<S>(roots, &steps, &Explore { depth, faults: false, max_states: 200_000, label: "pool".into() }, &mut scratch);
+    let nodes = hist::bfs::<S>(roots, &steps, &Explore { depth, faults: false, max_states: 200_000, label: "pool".into(), keep_all: true }, &mut scratch);
     let cap = if tier == Tier::Thorough { 500 } else { 120 };
     let stride = (nodes.len() / cap).max(1);
     let k = [S::mk_key(0), S::mk_key(1)];
@@ -48,6 +48,22 @@ pub fn run_c15_scheme<S: Sch>(tier: Tier, rep: &mut Report) {
         let e = &n.enr;
         pool.push(member(e.clone(), o.clone()));
         pool.push(member(e.clone(), format!("clone({o})")));
+        // Clone::clone_from into a record of another key and another content, and the slice forms built on it
+        {
+            let mut other = e.clone();
+            if other.insert("c15x", &9u8, &k[1 - n.m.owner]).is_ok() {
+                let mut x = other.clone();
+                x.clone_from(e);
+                pool.push(member(x, format!("clone_from({o})")));
+                let mut v = vec![other.clone()];
+                v.clone_from(&vec![e.clone()]);
+                pool.push(member(v.pop().unwrap(), format!("Vec::clone_from({o})")));
+                let mut arr = [other];
+                arr.clone_from_slice(std::slice::from_ref(e));
+                let [y] = arr;
+                pool.push(member(y, format!("clone_from_slice({o})")));
+            }
+        }
         if let Ok(Ok((d, _))) = real::decode::<S::K>(&real::encode(e)) {
             pool.push(member(d, format!("decode(encode({o}))")));
         }
